@@ -111,6 +111,7 @@ type ContractSet struct {
 	UFuns          map[string]*UFun
 	Axioms         []*Axiom
 	Funcs          map[string]*Contract
+	ZeroFacts map[string][]*Axiom // type string -> facts about a freshly allocated zero value `x`
 	Pins           []*Pin
 	Defs           map[string]*SpecDef // key pkg.name
 	Devirts        []Devirt
@@ -118,7 +119,7 @@ type ContractSet struct {
 	Files          []string
 }
 
-var clauseRe = regexp.MustCompile(`^(premise|postulate|requires|ensures|modifies|loop|use|func|extern|iface|pred|ghost|devirt|noeffect|assumed|inline|safety|nosafety|params|pure|nativestrings|pin|ufun|axiom|serves|modset|callsite|gstate)\b`)
+var clauseRe = regexp.MustCompile(`^(premise|postulate|requires|ensures|modifies|loop|use|func|extern|iface|pred|ghost|devirt|noeffect|assumed|inline|safety|nosafety|params|pure|nativestrings|pin|zerovalue|ufun|axiom|serves|modset|callsite|gstate)\b`)
 
 func newContractSet() *ContractSet {
 	return &ContractSet{Funcs: map[string]*Contract{}, Defs: map[string]*SpecDef{}, NoEffectIfaces: map[string]bool{}, UFuns: map[string]*UFun{}, ModSets: map[string]*ModSet{}, GStates: map[string]*GState{}}
@@ -252,6 +253,22 @@ func (cs *ContractSet) loadFileAs(path string, pkgKey string) error {
 			}
 			pn.Value = v
 			cs.Pins = append(cs.Pins, pn)
+			cur = nil
+		case "zerovalue":
+			// zerovalue <type> <expr over x>: ghost state of a freshly allocated zero value
+			sp := strings.IndexAny(rest, " \t")
+			if sp < 0 {
+				return fail(fmt.Errorf("zerovalue wants: type expr"))
+			}
+			e, err := parseSpecExpr(strings.TrimSpace(rest[sp:]))
+			if err != nil {
+				return fail(err)
+			}
+			if cs.ZeroFacts == nil {
+				cs.ZeroFacts = map[string][]*Axiom{}
+			}
+			tn := rest[:sp]
+			cs.ZeroFacts[tn] = append(cs.ZeroFacts[tn], &Axiom{Pkg: pkgName, Text: rest, Expr: e, File: path, Line: s.line})
 			cur = nil
 		case "axiom":
 			e, err := parseSpecExpr(rest)
